@@ -153,6 +153,167 @@ Proof.
     rewrite (IH f Hrest Hf'). reflexivity.
 Qed.
 
+(** ** H2 upload ended by a trailer block, as HTTP/1.1 bytes *)
+(** one step of [trailers_end] on a byte that is not CR *)
+Lemma trailers_end_other f x r b : x <> 13%N -> trailers_end (S f) (x :: r) b = trailers_end f r false.
+Proof.
+  intros Hx. cbn [trailers_end].
+  destruct x as [|p]; [reflexivity|].
+  repeat (match goal with
+          | |- context [match ?q with _ => _ end] => is_var q; destruct q
+          end; try reflexivity; try congruence).
+Qed.
+
+Lemma trailers_end_line l : forall f b rest,
+  Forall (fun x => x <> 13%N) l -> l <> [] -> length l < f ->
+  trailers_end f (l ++ 13%N :: 10%N :: rest) b = trailers_end (f - length l - 1) rest true.
+Proof.
+  induction l as [|x l IH]; intros f b rest Hall Hne Hf; [contradiction|].
+  inversion Hall as [|? ? Hx Hl]; subst.
+  destruct f as [|f]; [cbn in Hf; lia|].
+  cbn [app]. rewrite (trailers_end_other f x _ b Hx).
+  destruct l as [|y l'].
+  - cbn [app length]. destruct f as [|f]; [cbn in Hf; lia|].
+    cbn [trailers_end]. replace (S (S f) - 1 - 1) with f by lia. reflexivity.
+  - rewrite IH; [|exact Hl|discriminate|cbn in *; lia].
+    f_equal; cbn [length]; lia.
+Qed.
+
+Lemma trailer_section_ends fields : forall f,
+  Forall field_ok fields ->
+  length (trailer_section fields) < f ->
+  trailers_end f (trailer_section fields) true = true.
+Proof.
+  unfold trailer_section.
+  induction fields as [|kv fs IH]; intros f Hall Hf.
+  - cbn in *. destruct f as [|f]; [lia|]. reflexivity.
+  - inversion Hall as [|? ? (Hk & Hv) Hrest]; subst.
+    cbn [flat_map]. unfold trailer_line at 1.
+    repeat rewrite <- app_assoc.
+    rewrite (app_assoc (fst kv)), (app_assoc (fst kv ++ _)). cbn [app].
+    cbn [flat_map] in Hf. unfold trailer_line at 1 in Hf.
+    repeat rewrite app_length in Hf. cbn [length] in Hf.
+    rewrite trailers_end_line.
+    + apply IH; [exact Hrest|]. repeat rewrite app_length. cbn [length]. lia.
+    + apply Forall_app; split; [|exact Hv].
+      apply Forall_app; split; [exact Hk|].
+      repeat constructor; discriminate.
+    + destruct (fst kv); discriminate.
+    + repeat rewrite app_length. cbn [length]. lia.
+Qed.
+
+Lemma hex_value_app x : forall a y, hex_value a (x ++ y) = hex_value (hex_value a x) y.
+Proof. induction x as [|d x IH]; intros a y; [reflexivity|]. cbn [app hex_value]. apply IH. Qed.
+
+Lemma hex_digit_char_hexchar v : hex_digit_char v = hexchar v.
+Proof. reflexivity. Qed.
+
+Lemma to_hex_S f n acc :
+  to_hex (S f) n acc = if (n / 16 =? 0)%N then hex_digit_char (n mod 16) :: acc
+                       else to_hex f (n / 16) (hex_digit_char (n mod 16) :: acc).
+Proof. reflexivity. Qed.
+
+Lemma to_hex_spec f : forall n acc,
+  (n < 16 ^ N.of_nat (S f))%N ->
+  exists ds, to_hex (S f) n (map hexchar acc) = map hexchar (ds ++ acc)
+             /\ Forall (fun d => (d < 16)%N) ds /\ ds <> []
+             /\ forall a, hex_value a ds = (a * 16 ^ N.of_nat (length ds) + n)%N.
+Proof.
+  induction f as [|f IH]; intros n acc Hn.
+  - change (16 ^ N.of_nat 1)%N with 16%N in Hn.
+    exists [n]. cbn [to_hex]. rewrite hex_digit_char_hexchar.
+    rewrite (N.mod_small n 16 Hn), (N.div_small n 16 Hn). cbn [N.eqb app map].
+    split; [reflexivity|]. split; [constructor; [exact Hn|constructor]|]. split; [discriminate|].
+    intros a. cbn [hex_value length]. change (16 ^ N.of_nat 1)%N with 16%N. reflexivity.
+  - rewrite to_hex_S. rewrite hex_digit_char_hexchar.
+    assert (Hd : (n mod 16 < 16)%N) by (apply N.mod_lt; discriminate).
+    destruct (N.eqb_spec (n / 16) 0) as [Hq|Hq].
+    + exists [n mod 16]%N. cbn [app map].
+      split; [reflexivity|]. split; [constructor; [exact Hd|constructor]|]. split; [discriminate|].
+      intros a. cbn [hex_value length]. change (16 ^ N.of_nat 1)%N with 16%N.
+      pose proof (N.div_mod n 16). lia.
+    + assert (Hq' : (n / 16 < 16 ^ N.of_nat (S f))%N).
+      { apply N.div_lt_upper_bound; [discriminate|].
+        rewrite <- N.pow_succ_r'. rewrite <- Nat2N.inj_succ. exact Hn. }
+      destruct (IH (n / 16)%N ((n mod 16)%N :: acc) Hq') as (ds & E & Hds & Hne & Hv).
+      exists (ds ++ [n mod 16]%N).
+      change (hexchar (n mod 16) :: map hexchar acc) with (map hexchar ((n mod 16)%N :: acc)).
+      rewrite E. rewrite <- app_assoc. cbn [app].
+      split; [reflexivity|]. split; [|split].
+      * apply Forall_app; split; [exact Hds|constructor; [exact Hd|constructor]].
+      * destruct ds; discriminate.
+      * intros a. rewrite hex_value_app, Hv. cbn [hex_value].
+        rewrite app_length. cbn [length]. rewrite Nat.add_1_r, Nat2N.inj_succ, N.pow_succ_r'.
+        pose proof (N.div_mod n 16). lia.
+Qed.
+
+(** a DATA frame written as a chunk is a chunk of the grammar *)
+Lemma h2_data_as_chunk_grammar data :
+  data <> [] -> (N.of_nat (length data) < 16 ^ 20)%N ->
+  exists ds, h2_data_as_chunk data = chunk_bytes ds data
+             /\ Forall (fun d => (d < 16)%N) ds /\ ds <> []
+             /\ hex_value 0 ds = N.of_nat (length data).
+Proof.
+  intros Hne Hlen.
+  destruct (to_hex_spec 19 (N.of_nat (length data)) [] Hlen) as (ds & E & Hds & Hn & Hv).
+  exists ds. rewrite app_nil_r in E. cbn [map] in E.
+  split.
+  - unfold h2_data_as_chunk, chunk_bytes. destruct data; [contradiction|]. rewrite E. reflexivity.
+  - split; [exact Hds|]. split; [exact Hn|]. rewrite Hv. lia.
+Qed.
+
+Lemma dechunk_h2_frames frames : forall fuel tail R,
+  Forall frame_ok frames -> length frames < fuel ->
+  (forall f, dechunk (S f) tail = R) ->
+  dechunk fuel (flat_map h2_data_as_chunk frames ++ tail) =
+  (let '(b, c, e) := R in (concat frames ++ b, c, e)).
+Proof.
+  induction frames as [|d fs IH]; intros fuel tail R Hall Hf HR.
+  - destruct fuel as [|f]; [cbn in Hf; lia|].
+    cbn [flat_map app concat]. rewrite HR. destruct R as [[b c] e]. reflexivity.
+  - inversion Hall as [|? ? Hd Hrest]; subst.
+    cbn [flat_map concat].
+    destruct d as [|x d'].
+    + cbn [h2_data_as_chunk app].
+      apply IH; [exact Hrest | cbn in Hf; lia | exact HR].
+    + destruct fuel as [|f]; [cbn in Hf; lia|].
+      destruct (h2_data_as_chunk_grammar (x :: d')) as (ds & E & Hds & Hn & Hv); [discriminate | exact Hd |].
+      rewrite E, <- app_assoc.
+      rewrite (dechunk_one f ds (x :: d') _ Hds Hn); [|discriminate|exact Hv].
+      rewrite (IH f tail R Hrest); [|cbn in Hf; lia|exact HR].
+      destruct R as [[b c] e]. rewrite <- app_assoc. reflexivity.
+Qed.
+
+Lemma dechunk_last_line f w :
+  dechunk (S f) (48%N :: 13%N :: 10%N :: w) = ([], trailers_end (S (length w)) w true, false).
+Proof. reflexivity. Qed.
+
+Lemma h2_upload_trailers_exact_proof frames fields fuel :
+  Forall frame_ok frames -> Forall field_ok fields -> length frames < fuel ->
+  dechunk fuel (h2_upload_trailers_as_h1 frames true false fields) = (concat frames, true, false).
+Proof.
+  intros Hfr Hfi Hf. unfold h2_upload_trailers_as_h1, h2_trailers_as_h1.
+  rewrite (dechunk_h2_frames frames fuel _ ([], true, false) Hfr Hf).
+  - rewrite app_nil_r. reflexivity.
+  - intros f. unfold h2_end_as_chunk. rewrite app_nil_r. cbn [app].
+    rewrite dechunk_last_line. rewrite trailer_section_ends; [reflexivity | exact Hfi | apply Nat.lt_succ_diag_r].
+Qed.
+
+(** the defect the tie is there for: with [end_chunk] set on the end-of-body flags the last-chunk
+    line is followed by an empty line BEFORE the fields — a complete message with no trailers,
+    then stray bytes: the strict recipient does not see the message end where the bytes end *)
+Lemma h2_upload_trailers_end_chunk_refuted_proof frames kv fields fuel :
+  Forall frame_ok frames -> length frames < fuel ->
+  dechunk fuel (h2_upload_trailers_as_h1 frames true true (kv :: fields)) = (concat frames, false, false).
+Proof.
+  intros Hfr Hf. unfold h2_upload_trailers_as_h1, h2_trailers_as_h1.
+  rewrite (dechunk_h2_frames frames fuel _ ([], false, false) Hfr Hf).
+  - rewrite app_nil_r. reflexivity.
+  - intros f. unfold h2_end_as_chunk, trailer_section. cbn [app flat_map].
+    rewrite dechunk_last_line. unfold trailer_line.
+    destruct (fst kv); cbn [app length trailers_end]; reflexivity.
+Qed.
+
 (** ** H2 block converter *)
 Lemma body_of_cons_chunk d r : body_of (BChunk d :: r) = d ++ body_of r.
 Proof. reflexivity. Qed.
